@@ -15,7 +15,7 @@ import numpy as np  # noqa: E402
 import pandas as pd  # noqa: E402
 from tdda.constraints import verify_df, detect_df  # noqa: E402
 
-MODEL_FAMS = [f for f in cx.FAMILIES if f not in ('datetime-tz', 'str', 'category')]
+MODEL_FAMS = [f for f in cx.FAMILIES if f not in ('datetime-tz', 'str', 'category', 'category-unused')]
 SIGNS = ['positive', 'non-negative', 'zero', 'non-positive', 'negative', 'null']
 TYPES = ['bool', 'int', 'real', 'string', 'date']
 EPS = [Fraction(0), Fraction(1, 2), Fraction(1, 4), Fraction(1, 8)]
@@ -70,6 +70,9 @@ def gen_constraints(rng, col):
                 v = step(base, rng.choice([-1, 0, 0, 1]), ftype)
                 if ftype == 'real' and rng.random() < 0.3:
                     v = base * rng.choice([0.5, 1.5, 1.25, 0.75, 2.0])
+                if ftype == 'real' and rng.random() < 0.35:
+                    # a bound whose fuzzy band edge may fall among the values
+                    v = rng.choice([-128.0, -64.0, -8.0, 8.0, 64.0, 128.0])
                 if ftype == 'int' and rng.random() < 0.3:
                     v = int(base * rng.choice([0.5, 1.5, 2]))
                 if rng.random() < 0.1:
@@ -298,7 +301,7 @@ class C02(core.Prop):
         ]
 
     def gen_case(self, rng, i):
-        fr = cx.gen_frame(rng, fams=MODEL_FAMS + ['category', 'datetime-tz'] if rng.random() < 0.2 else MODEL_FAMS)
+        fr = cx.gen_frame(rng, fams=MODEL_FAMS + ['category', 'category-unused', 'datetime-tz'] if rng.random() < 0.2 else MODEL_FAMS)
         for c in fr['cols']:
             # |ints| <= 2**40 and no infinities: the fuzzy bound v*(1+eps) is then exact in binary floating point
             c['cells'] = [None if x is None else
@@ -470,7 +473,7 @@ class C02(core.Prop):
                     fail('verdict', '%s %s=%r (precision %s, eps %s) on %s %r: reported %s, documented meaning %s'
                          % (name, k['kind'], k['value'], k.get('precision'), eps, fam,
                             None if col is None else col['cells'][:8], bool(got), want),
-                         'verdict:%s:%s' % (k['kind'], fam if fam in ('datetime-tz', 'object-date', 'category', 'str', 'missing') else cx.col_ftype(col)))
+                         'verdict:%s:%s' % (k['kind'], fam if fam in ('datetime-tz', 'object-date', 'category', 'category-unused', 'str', 'missing') else cx.col_ftype(col)))
             if (fr.passes, fr.failures) != (p, f):
                 fail('field-totals', '%s: passes/failures %r, verdict counts %r' % (name, (fr.passes, fr.failures), (p, f)))
             tot_p += p
